@@ -224,6 +224,8 @@ def attribute(j, prop, known):
         if k.get("status") != "open":
             continue
         if k.get("dev") in j.get("devs", []) and j.get("rule") in k.get("rules", []):
+            if k.get("optimised_only") and not (j.get("info") or {}).get("sw"):
+                continue        # a finding about the optimiser cannot explain a not-optimised object
             if k.get("model_explains") and not explained_by_model(j):
                 continue
             return k
@@ -391,9 +393,15 @@ def check(prop, tier, seed):
     known_hits = {}
     other = {}
     for j in judged_all:
-        if j.get("rule") not in rules:
+        # an event may violate several clauses (`also`); it counts if any of them is one of the
+        # property's, and is then judged under that clause
+        clauses = [j.get("rule")] + list(j.get("also") or [])
+        mine = [c for c in clauses if c in rules]
+        if not mine:
             other[j.get("rule")] = other.get(j.get("rule"), 0) + 1
             continue
+        j = dict(j)
+        j["rule"] = mine[0]
         k = attribute(j, prop, known)
         if k:
             known_hits.setdefault(k["id"], []).append(j)
